@@ -62,7 +62,12 @@ def strategy():
         "level": st.just(1),
         "nofile": st.sampled_from([12, 16]),
     })
-    return st.one_of(usual, usual, usual, usual, usual, usual, usual, usual, usual, many)
+    def steer(c):
+        # a non-bzip2 operand is only copied through with -d -c -f: make that combination common when one is present
+        if any(o["kind"] == "passthrough" for o in c["ops"]) and c["ops"][0]["seed"] % 4:
+            c = dict(c, decompress=True, c=True, f=True)
+        return c
+    return st.one_of(usual, usual, usual, usual, usual, usual, usual, usual, usual, many).map(steer)
 
 
 def content_for(o, decompress):
